@@ -1,4 +1,4 @@
-import Proofs.Observe.Runs
+import Proofs.Observe.Causes
 /-!
 # C08 — Observe server: rising numbers, latest state sent, cancellation final, no leak
 
@@ -203,5 +203,278 @@ theorem C08_callback_exactly_once {c : State} (h : Inv c) (sv : Nat) (es : List 
     have h1 := step_cb h sv e
     have h2 := ih (Inv_step h e)
     omega
+
+
+-- rising Observe numbers, the registration's token ---------------------------------------------------------
+
+theorem step_nums {c : State} (h : Inv c) (sv : Nat) (e : TEv) :
+    obsSeq sv (step c e).2 = List.range' (baseOf c sv) (obsSeq sv (step c e).2).length ∧
+    (doneAt (step c e).1 sv ∨
+      baseOf (step c e).1 sv = baseOf c sv + (obsSeq sv (step c e).2).length) := by
+  have h0 := Inv_setNow h e.time
+  by_cases hs : ∃ plan acc, e.ev = .step sv plan acc
+  · obtain ⟨plan, acc, he⟩ := hs
+    simp only [step, he]
+    cases hf : findTask c sv with
+    | none =>
+      have hf0 : findTask { c with ml := MsgLayer.setNow c.ml e.time } sv = none := hf
+      rw [handle_absent_step hf0]
+      exact ⟨by simp [obsSeq], Or.inr (by simp [obsSeq, baseOf, hf0, hf])⟩
+    | some t =>
+      have hf0 : findTask { c with ml := MsgLayer.setNow c.ml e.time } sv = some t := hf
+      have hself := handle_self_step hf0 plan acc
+      have hn := stepTask_nums c.value t plan acc
+      rw [hself.1, (exec_outs sv _ _).1]
+      have hb : baseOf c sv = base t := by simp [baseOf, hf]
+      refine ⟨by rw [hb]; exact hn.1, ?_⟩
+      by_cases hd : (stepTask c.value t plan acc).1.phase = .done
+      · exact Or.inl ⟨_, hself.2, hd⟩
+      · right
+        simp only [baseOf, hself.2, hf]
+        exact hn.2 hd
+  · have hq := Quiescent_handle h0 e.ev sv (fun plan acc he => hs ⟨plan, acc, he⟩)
+    simp only [step]
+    rw [obsSeq_of_silent hq.silent]
+    exact ⟨rfl, Or.inr (by rw [hq.base]; simp [baseOf, findTask_setNow])⟩
+
+/-- **C08 (strictly increasing Observe values).** Over any run from any reachable state — all
+schedules of triggers, render completions, task steps, acknowledgements, losses — the Observe
+values that the render task of a registration puts on its pipe are consecutive numbers: they
+start at the task's next number (0 for a registration that has not answered yet, in particular
+for a new one) and each is one more than the one before.  In particular they are strictly
+increasing, and no notification is numbered before the first response. -/
+theorem C08_observe_numbers_rising {c : State} (h : Inv c) (sv : Nat) (es : List TEv) :
+    obsSeq sv (run c es).2 = List.range' (baseOf c sv) (obsSeq sv (run c es).2).length := by
+  induction es generalizing c with
+  | nil => simp [run, obsSeq]
+  | cons e es ih =>
+    simp only [run, obsSeq_append]
+    have h1 := step_nums h sv e
+    have h2 := ih (Inv_step h e)
+    rcases h1.2 with hd | hb
+    · have hsil := (C08_silent_after_end (Inv_step h e) hd es).1
+      rw [obsSeq_of_silent hsil, List.append_nil]
+      exact h1.1
+    · rw [List.length_append, ← List.range'_append_1, ← hb, ← h2, ← h1.1]
+
+
+/-- **C08 (the registration's token).** Whenever the render task of a registration runs — in any
+reachable state, whatever it does in that step — every datagram the message layer transmits in
+that step goes to the registration's remote with the registration's token, and is one of the
+responses the task put on the pipe in that step (same code, Observe value and content). -/
+theorem C08_notifications_carry_token {c : State} (h : Inv c) {t : Task} (ht : t ∈ c.tasks)
+    (plan : Plan) (acc : Bool) (tm : Nat) (r : Remote) (w : Wire)
+    (ho : Out.net (.send tm r w) ∈ (handle c (.step t.srv plan acc)).2) :
+    r = t.remote ∧ w.token = t.token ∧
+    ∃ il, Out.notify t.srv w.code w.obs w.body il ∈ (handle c (.step t.srv plan acc)).2 := by
+  have hf := findTask_of_mem h.wf ht
+  have hself := handle_self_step hf plan acc
+  rw [hself.1] at ho ⊢
+  obtain ⟨i, hi, hsv, hr, htok, il, hem⟩ :=
+    exec_sends t.srv c.ml.incoming _ c (fun i hi => hi) tm r w ho
+  obtain ⟨ti, hti, h1, _, h3, h4⟩ := h.pipe.p1 i hi
+  have : ti = t := task_unique h.wf hti ht (h1.trans hsv)
+  subst this
+  exact ⟨hr.trans h4.symm, htok.trans h3.symm, il, exec_notify_mem _ _ _ _ _ _ _ hem⟩
+
+
+-- every ending cause ends the registration ------------------------------------------------------------------
+
+/-- the message layer's own invariant (one exchange per remote, …) holds in every reachable state
+as well -/
+theorem C08_invariant_msglayer (cfg : Cfg) (mid tok : Nat) (f : Nat → Nat) (maxRetr : Nat) (es : List TEv) :
+    MsgLayer.Inv (run (init (MsgLayer.init cfg mid tok f) maxRetr) es).1.ml :=
+  run_mlInv (init_Inv cfg mid tok f) es
+
+/-- **C08 (end cause: Reset).** A CON notification of registration `sv` is in flight (an exchange
+whose message-error monitor is the stopper of the pipe).  When the observer answers it with a
+Reset, the pipe is removed from the table of unfinished requests and the render task is
+cancelled (`Stopped`), whatever the task is doing at that moment. -/
+theorem C08_end_rst {c : State} (h : Inv c) (hml : MsgLayer.Inv c.ml) {e : Exchange}
+    (he : e ∈ c.ml.exchanges) {sv : Nat} (hm : e.monitor = .srv sv)
+    (hin : ∃ i ∈ c.ml.incoming, i.srv = sv) (hs : c.ml.shutMsg = false)
+    (w : Wire) (hw : w.mtype = .rst) (hc : w.code = 0) (hmid : w.mid = e.msg.mid) :
+    Stopped (handle c (.recv e.remote false w)).1 sv :=
+  netEvent_stopped h _ rfl ((stops_iff _ _).mpr (stop_of_rst hml he hm hin hs w hw hc hmid))
+
+/-- **C08 (end cause: new request on the same token).** When the endpoint that registered sends a
+new request with the same token — a re-registration, a deregistration (Observe 1), a plain GET —
+the pipe registered under that (token, remote) is stopped and its render task cancelled; the new
+request gets a pipe and a task of its own. -/
+theorem C08_end_same_token {c : State} (h : Inv c) {remote : Remote} {w : Wire} {i : InReq}
+    (hf : c.ml.incoming.find? (fun i => i.token == w.token && i.remote == remote) = some i)
+    (hs : c.ml.shutMsg = false) (hreq : isRequest w.code = true)
+    (ht : w.mtype = .con ∨ w.mtype = .non) (hdup : isDup c.ml remote w = false) (mcl : Bool) :
+    Stopped (handle c (.recv remote mcl w)).1 i.srv ∧
+    ∃ t ∈ (handle c (.recv remote mcl w)).1.tasks, t.srv = c.ml.nextSrv ∧ t.phase = .fresh ∧
+      t.token = w.token ∧ t.remote = remote := by
+  have hst := stop_of_same_token hf hs hreq ht hdup mcl
+  refine ⟨netEvent_stopped h _ rfl ((stops_iff _ _).mpr hst), ?_⟩
+  -- the new request is delivered
+  have hsrv := handle_SrvStep h.wf.sinv (.recv remote mcl w) rfl
+  have hc0 : (w.code == 0) = false := by
+    simp only [isRequest, Bool.and_eq_true, decide_eq_true_eq] at hreq
+    simp; omega
+  have hna : (w.mtype == .ack || w.mtype == .rst) = false := by
+    rcases ht with ht | ht <;> simp [ht]
+  have hcn : (w.mtype == .con || w.mtype == .non) = true := by
+    rcases ht with ht | ht <;> simp [ht]
+  have hdel : Out.deliver c.ml.nextSrv remote w ∈ (MsgLayer.handle c.ml (.recv remote mcl w)).2 := by
+    simp only [MsgLayer.handle, hs, Bool.false_eq_true, ↓reduceIte]
+    unfold MsgLayer.recv
+    simp only [hdup, hreq, Bool.false_eq_true, ↓reduceIte, hna, List.nil_append]
+    unfold recvCode
+    simp only [hc0, Bool.false_and, Bool.false_eq_true, ↓reduceIte, hreq, hcn, Bool.and_self]
+    unfold processRequest
+    dsimp only
+    split <;> simp [tokenProcessRequest, dropIncoming] <;> split <;> simp
+  exact ⟨newTask c.ml.nextSrv remote w,
+    List.mem_append_right _ (mem_delivered.mpr ⟨_, _, _, hdel, rfl⟩), rfl, rfl, rfl, rfl⟩
+
+/-- **C08 (end cause: a confirmable notification times out).** When a CON to the observer has been
+retransmitted `MAX_RETRANSMIT` times and its timer fires again, every registration of that
+endpoint is stopped and its task cancelled. -/
+theorem C08_end_giveup {c : State} (h : Inv c) {remote : Remote} {mid : Nat} {e : Exchange}
+    (hf : findExchange c.ml remote mid = some e) (hc : ¬ e.counter < e.maxRetr)
+    (hs : c.ml.shutTok = false) {i : InReq} (hi : i ∈ c.ml.incoming) (hr : i.remote = remote) :
+    Stopped (handle c (.fireRetransmit remote mid)).1 i.srv :=
+  netEvent_stopped h _ rfl ((stops_iff _ _).mpr (stop_of_giveup hf hc hs hi hr))
+
+/-- **C08 (end cause: transport error).** An error the transport reports for the observer's address
+stops every registration of that endpoint. -/
+theorem C08_end_transport_error {c : State} (h : Inv c) (hm : c.ml.shutMsg = false)
+    (hs : c.ml.shutTok = false) {remote : Remote} {i : InReq} (hi : i ∈ c.ml.incoming)
+    (hr : i.remote = remote) : Stopped (handle c (.error remote)).1 i.srv :=
+  netEvent_stopped h _ rfl ((stops_iff _ _).mpr (stop_of_error hm hs hi hr))
+
+/-- **C08 (end cause: shutdown).** `Context.shutdown()` stops every registration. -/
+theorem C08_end_shutdown {c : State} (h : Inv c) (hs : c.ml.shutTok = false) {i : InReq}
+    (hi : i ∈ c.ml.incoming) : Stopped (handle c .shutdown).1 i.srv :=
+  netEvent_stopped h _ rfl ((stops_iff _ _).mpr (stop_of_shutdown hs hi))
+
+
+/-- **C08 (a cancelled task ends, running the callback once).** After any of the ending causes the
+task is `Stopped`: cancelled but possibly not yet ended.  Such a task is in the ready queue
+(`C08_no_lost_wakeup`), and its next step — whatever it was doing: awaiting the trigger, rendering,
+already woken by a trigger — runs only the `finally` clause: the cancellation callback (exactly
+when the observation had been accepted) which takes it out of the resource's set and reports the
+new count; nothing is rendered and nothing is put on the pipe; the task has ended. -/
+theorem C08_cancelled_task_ends {c : State} (h : Inv c) {t : Task} (ht : t ∈ c.tasks)
+    (hc : t.cancelReq = true) (hd : t.phase ≠ .done) (plan : Plan) (acc : Bool) :
+    t.runnable = true ∧
+    (handle c (.step t.srv plan acc)).2 =
+      (if t.observe && t.accepted then
+        [.cancelled t.srv, .count (c.observations.erase t.srv).length] else []) ∧
+    (handle c (.step t.srv plan acc)).1.observations =
+      (if t.observe && t.accepted then c.observations.erase t.srv else c.observations) ∧
+    (t.observe && t.accepted → (c.observations.erase t.srv).length + 1 = c.observations.length) ∧
+    doneAt (handle c (.step t.srv plan acc)).1 t.srv := by
+  have hrun := (h.ok t ht).wCancel hc hd
+  have hf := findTask_of_mem h.wf ht
+  have hself := handle_self_step hf plan acc
+  have hst : stepTask c.value t plan acc = cancelStep t := by simp [stepTask, hrun, hc]
+  refine ⟨hrun, ?_, ?_, ?_, ⟨_, hself.2, by rw [hst]; rfl⟩⟩
+  · rw [hself.1, hst]
+    simp only [cancelStep]
+    split <;> simp [exec, execAct]
+  · simp only [handle, hf, putTask]
+    rw [hst]
+    simp only [cancelStep]
+    split <;> simp [exec, execAct]
+  · intro hcb
+    have hmem : t.srv ∈ c.observations := by
+      rw [h.count.mem]
+      simp only [Bool.and_eq_true] at hcb
+      exact ⟨t, ht, rfl, by simp [inSet, hcb.1, hcb.2, hd]⟩
+    rw [List.length_erase_of_mem hmem]
+    have := List.length_pos_of_mem hmem
+    omega
+
+/-- **C08 (end cause: a notification that is unsuccessful or marked last).** If a step of the
+render task puts a *last* response on the pipe — the first response of a declined, early
+deregistered or failed registration; a notification with an unsuccessful code; the response to a
+render that raised; a notification triggered with `is_last` — then in the same step the task ends,
+the cancellation callback runs (once, iff the observation had been accepted) and the pipe leaves
+the table of unfinished requests. -/
+theorem C08_end_last_notification {c : State} (h : Inv c) {t : Task} (ht : t ∈ c.tasks)
+    (plan : Plan) (acc : Bool) {code : Nat} {obs : Option Nat} {body : Nat}
+    (hn : Out.notify t.srv code obs body true ∈ (handle c (.step t.srv plan acc)).2) :
+    doneAt (handle c (.step t.srv plan acc)).1 t.srv ∧
+    (∀ i ∈ (handle c (.step t.srv plan acc)).1.ml.incoming, i.srv ≠ t.srv) ∧
+    cancelledCount t.srv (handle c (.step t.srv plan acc)).2 =
+      cbOf (handle c (.step t.srv plan acc)).1 t.srv - t.cbRuns := by
+  have hf := findTask_of_mem h.wf ht
+  have hself := handle_self_step hf plan acc
+  rw [hself.1] at hn
+  have hlast := hasLast_of_mem (exec_notify_inv _ _ _ _ _ _ _ _ hn)
+  have hdone := stepTask_last c.value t plan acc hlast
+  refine ⟨⟨_, hself.2, hdone⟩, ?_, ?_⟩
+  · intro i hi
+    simp only [handle, hf, putTask] at hi
+    rw [exec_incoming, hlast] at hi
+    simpa using (List.mem_filter.mp hi).2
+  · rw [hself.1, (exec_outs _ _ _).2.1]
+    simp only [cbOf, hself.2]
+    have := stepTask_cbs c.value t plan acc
+    omega
+
+-- the observer count ------------------------------------------------------------------------------------
+
+/-- **C08 (no leak).** A registration whose task has ended is neither in the resource's set of
+observations nor in the message layer's table of unfinished requests. -/
+theorem C08_no_leak {c : State} (h : Inv c) {sv : Nat} (hd : doneAt c sv) :
+    sv ∉ c.observations ∧ ∀ i ∈ c.ml.incoming, i.srv ≠ sv := by
+  obtain ⟨t, hf, hdone⟩ := hd
+  obtain ⟨ht, hsv⟩ := findTask_some hf
+  refine ⟨?_, ?_⟩
+  · intro hm
+    obtain ⟨t', ht', h1, h2⟩ := (h.count.mem sv).mp hm
+    have : t' = t := task_unique h.wf ht' ht (h1.trans hsv.symm)
+    subst this
+    simp [inSet, hdone] at h2
+  · intro i hi he
+    obtain ⟨t', ht', h1, h2, _⟩ := h.pipe.p1 i hi
+    have : t' = t := task_unique h.wf ht' ht ((h1.trans he).trans hsv.symm)
+    subst this
+    simp [Task.live, hdone] at h2
+
+/-- **C08 (the count is the number of live accepted observations).** In every reachable state the
+number the resource reports through `update_observation_count` — the size of its set — is the
+number of registrations that have been accepted and have not ended. -/
+theorem C08_count_is_live_observations {c : State} (h : Inv c) :
+    c.observations.length = (c.tasks.filter (fun t => inSet t)).length := by
+  have hnd : ((c.tasks.filter (fun t => inSet t)).map (·.srv)).Nodup :=
+    List.Nodup.sublist (List.filter_sublist.map _) h.wf.nd
+  have hperm : c.observations.Perm ((c.tasks.filter (fun t => inSet t)).map (·.srv)) := by
+    rw [List.perm_ext_iff_of_nodup h.count.nd hnd]
+    intro sv
+    rw [h.count.mem sv]
+    simp only [List.mem_map, List.mem_filter]
+    constructor
+    · rintro ⟨t, ht, h1, h2⟩; exact ⟨t, ⟨ht, h2⟩, h1⟩
+    · rintro ⟨t, ⟨ht, h2⟩, h1⟩; exact ⟨t, ht, h1, h2⟩
+  rw [hperm.length_eq, List.length_map]
+
+/-- **C08 (count restored).** Take any reachable state in which registration `sv` does not exist
+yet, and any later state in which it has ended — however it was accepted, whatever it sent,
+whatever ended it.  If no *other* observation was registered or ended in between, the resource's
+observer count is back at its previous value. -/
+theorem C08_count_restored {c : State} (h : Inv c) (sv : Nat) (es : List TEv)
+    (hnew : findTask c sv = none) (hd : doneAt (run c es).1 sv)
+    (hothers : ∀ sv', sv' ≠ sv → (sv' ∈ (run c es).1.observations ↔ sv' ∈ c.observations)) :
+    (run c es).1.observations.length = c.observations.length := by
+  have h' := Inv_run h es
+  have hperm : (run c es).1.observations.Perm c.observations := by
+    rw [List.perm_ext_iff_of_nodup h'.count.nd h.count.nd]
+    intro x
+    by_cases hx : x = sv
+    · subst hx
+      constructor
+      · intro hm; exact absurd hm (C08_no_leak h' hd).1
+      · intro hm
+        obtain ⟨t, ht, h1, _⟩ := (h.count.mem x).mp hm
+        rw [← h1, findTask_of_mem h.wf ht] at hnew; cases hnew
+    · exact hothers x hx
+  exact hperm.length_eq
 
 end Aiocoap.Observe.Server
